@@ -11,6 +11,7 @@ import (
 
 	"github.com/go-kid/ioc/app"
 	"github.com/go-kid/ioc/configure"
+	"github.com/go-kid/ioc/configure/binder"
 	"github.com/go-kid/ioc/configure/loader"
 	"gopkg.in/yaml.v3"
 	"pgregory.net/rapid"
@@ -411,4 +412,109 @@ func dedup(xs []string) []string {
 		}
 	}
 	return out
+}
+
+
+// TestReinitialize: the Configure API used in several steps - attach sources, Initialize, attach more
+// (files sort to the front), Initialize again. After the last Initialize the effective configuration is
+// the merge of ALL attached sources in the contract sequence.
+func TestReinitialize(t *testing.T) {
+	kit.Rec.Rule(rule)
+	rapid.Check(t, func(t *rapid.T) {
+		schema := genSchema(t)
+		ns := rapid.IntRange(2, 4).Draw(t, "nsources")
+		srcs := make([]source, ns)
+		for i := range srcs {
+			k := rapid.SampledFrom([]string{"raw", "file", "args"}).Draw(t, "kind")
+			srcs[i] = source{Kind: k, Leaves: map[string]any{}}
+			for _, p := range schema {
+				if rapid.IntRange(0, 2).Draw(t, "has") > 0 {
+					srcs[i].Leaves[p] = genValue(t, k)
+				}
+			}
+			if len(srcs[i].Leaves) == 0 {
+				srcs[i].Leaves[schema[0]] = genValue(t, k)
+			}
+		}
+		dir, err := os.MkdirTemp("", "c15r-")
+		if err != nil {
+			t.Skip("no temp dir")
+		}
+		defer os.RemoveAll(dir)
+		c := configure.NewConfigure()
+		c.SetBinder(binder.NewViperBinder("yaml"))
+		split := rapid.IntRange(1, ns-1).Draw(t, "split")
+		attach := func(i int) {
+			s := srcs[i]
+			switch s.Kind {
+			case "raw":
+				b, _ := yaml.Marshal(nest(s.Leaves))
+				c.AddLoaders(loader.NewRawLoader(b))
+			case "file":
+				b, _ := yaml.Marshal(nest(s.Leaves))
+				p := filepath.Join(dir, fmt.Sprintf("r%d.yaml", i))
+				_ = os.WriteFile(p, b, 0o644)
+				c.AddLoaders(loader.NewFileLoader(p))
+			default:
+				c.AddLoaders(loader.NewArgsLoader(argsOf(s)))
+			}
+		}
+		for i := 0; i < split; i++ {
+			attach(i)
+		}
+		if err := c.Initialize(); err != nil {
+			t.Fatalf("C15: Initialize: %v", err)
+		}
+		for i := split; i < ns; i++ {
+			attach(i)
+		}
+		if err := c.Initialize(); err != nil {
+			t.Fatalf("C15: second Initialize: %v", err)
+		}
+		var ss []string
+		for _, s := range srcs {
+			ss = append(ss, s.String())
+		}
+		desc := fmt.Sprintf("reinit sources %s; Initialize after the first %d, again after all", strings.Join(ss, " | "), split)
+		var files, others []int
+		for i, s := range srcs {
+			if s.Kind == "file" {
+				files = append(files, i)
+			} else {
+				others = append(others, i)
+			}
+		}
+		for _, p := range schema {
+			var adm []any
+			for _, i := range others {
+				if v, ok := srcs[i].Leaves[p]; ok {
+					adm = []any{v}
+				}
+			}
+			if adm == nil {
+				for _, i := range files {
+					if v, ok := srcs[i].Leaves[p]; ok {
+						adm = append(adm, v)
+					}
+				}
+			}
+			got := c.Get(p)
+			if adm == nil {
+				if got != nil {
+					t.Fatalf("C15: key %q is supplied by no source but Get returns %v\n%s", p, got, desc)
+				}
+				continue
+			}
+			ok := false
+			for _, a := range adm {
+				if reflect.DeepEqual(canon(got), canon(a)) {
+					ok = true
+				}
+			}
+			if !ok {
+				t.Fatalf("C15: after re-initialisation Get(%q) = %#v, the merge of all attached sources gives %v\n%s", p, got, adm, desc)
+			}
+		}
+		kit.Rec.Case(desc, true, "reinitialize")
+	})
 }
